@@ -449,9 +449,16 @@ pub fn cmd_fuzz(a: &Args) {
 		}
 	}
 	let bases = bases.into_inner().unwrap();
-	let next = std::sync::atomic::AtomicUsize::new(0);
 	// a hung read leaves a spinning thread behind: after a few hangs (already reported) stop exploring
 	let hangs = std::sync::atomic::AtomicUsize::new(0);
+	// second pass: every LOGGER_STRIDE-th base file again with a logger installed at trace level
+	let ls = crate::LOGGER_STRIDE.load(std::sync::atomic::Ordering::SeqCst);
+	for logging in [false, true] {
+	if logging && ls == 0 {
+		break;
+	}
+	crate::set_logging(logging);
+	let next = std::sync::atomic::AtomicUsize::new(0);
 	std::thread::scope(|s| {
 		for _ in 0..threads.max(1) {
 			s.spawn(|| {
@@ -460,6 +467,9 @@ pub fn cmd_fuzz(a: &Args) {
 					let i = next.fetch_add(1, std::sync::atomic::Ordering::SeqCst);
 					if i >= bases.len() {
 						return;
+					}
+					if logging && i % ls != 0 {
+						continue;
 					}
 					let (name, base) = &bases[i];
 					let mut r = Rng::keyed(seed, i as u64, 0xF022);
@@ -487,6 +497,8 @@ pub fn cmd_fuzz(a: &Args) {
 			});
 		}
 	});
+	}
+	crate::set_logging(false);
 	sink.summary(json!({"base_files": bases.len()}));
 }
 
